@@ -211,7 +211,7 @@ P["C15"] = {
     "assumptions": ["std::io::Write::write_all is the documented loop (modelled by writeAllFuel); ErrorKind::Interrupted retries are not modelled (the injected fault is ErrorKind::Other)",
                     "read_exact on an in-memory slice returns UnexpectedEof iff fewer bytes remain than requested",
                     "streams are those defined by a per-call acceptance-limit sequence (cycled) and one optional failing call, as the property quantifies"],
-    "extra_coverage": lambda res: {"fault_sequences": sum(v for k, v in res.fns.items() if k == "c15w"), "truncation_offsets": sum(v for k, v in res.fns.items() if k == "c15r")},
+    "extra_coverage": lambda res: {"fault_sequences": sum(v for k, v in res.fns.items() if k == "c15w"), "interrupt_sequences": sum(v for k, v in res.fns.items() if k == "c15wi"), "truncation_offsets": sum(v for k, v in res.fns.items() if k == "c15r")},
 }
 
 P["C14"] = {
